@@ -92,3 +92,111 @@ fn c06_walk_stride_arithmetic() {
     }
     kani::cover!(true);
 }
+
+fn popcount_rows(m: &[u64]) -> u32 {
+    let mut n = 0u32;
+    let mut i = 0;
+    while i < m.len() {
+        let mut w = m[i];
+        w = w - ((w >> 1) & 0x5555555555555555);
+        w = (w & 0x3333333333333333) + ((w >> 2) & 0x3333333333333333);
+        w = (w + (w >> 4)) & 0x0f0f0f0f0f0f0f0f;
+        w = w + (w >> 8);
+        w = w + (w >> 16);
+        w = w + (w >> 32);
+        n += (w & 0x7f) as u32;
+        i += 1;
+    }
+    n
+}
+
+/// sketch of `n` symbolic distinct coupons at the given lg_k, with its model matrix folded to 16 rows
+fn small_sketch(lg_k: u8, n: usize, model16: &mut [u64; 16]) -> CpcSketch {
+    let mut s = CpcSketch::new(lg_k);
+    let mut own = [0u64; 32];
+    let mut i = 0;
+    while i < n {
+        let row: u32 = kani::any();
+        let col: u32 = kani::any();
+        kani::assume(row < (1u32 << lg_k) && col < 64);
+        kani::assume(own[row as usize] & (1u64 << col) == 0);
+        own[row as usize] |= 1u64 << col;
+        s.row_col_update((row << 6) | col);
+        model16[(row & 15) as usize] |= 1u64 << col;
+        i += 1;
+    }
+    s
+}
+
+fn check_union_result(u: &CpcUnion, model: &[u64; 16]) {
+    assert!(u.lg_k() == 4, "union lg_k is not the smallest lg_k seen");
+    let c = popcount_rows(model);
+    assert!(u.num_coupons() == c, "union coupon count is not the population count of the OR");
+    let r = u.to_sketch();
+    assert!(r.lg_k() == 4 && r.num_coupons() == c);
+    assert!(r.validate(), "result sketch is internally inconsistent");
+    if c > 0 {
+        assert!(r.merge_flag, "result sketch not marked as merged");
+    }
+    let m = r.build_bit_matrix();
+    let mut i = 0;
+    while i < 16 {
+        assert!(m[i] == model[i], "union result is not the OR of the inputs' matrices (folded)");
+        i += 1;
+    }
+    assert!(r.window_offset == crate::cpc::determine_correct_offset(4, c));
+    core::mem::forget((r, m));
+}
+
+fn union_case(lg_a: u8, n_a: usize, lg_b: u8, n_b: usize, lg_u: u8) {
+    let mut model = [0u64; 16];
+    let a = small_sketch(lg_a, n_a, &mut model);
+    let mut model_a = model;
+    let b = small_sketch(lg_b, n_b, &mut model);
+    let mut u1 = CpcUnion::new(lg_u);
+    u1.update(&a);
+    if lg_a == 4 || lg_u == 4 {
+        check_union_result(&u1, &model_a);
+    }
+    u1.update(&b);
+    check_union_result(&u1, &model);
+    // order independence and idempotence
+    let mut u2 = CpcUnion::new(lg_u);
+    u2.update(&b);
+    u2.update(&a);
+    u2.update(&b);
+    check_union_result(&u2, &model);
+    let _ = &mut model_a;
+    core::mem::forget((a, b, u1, u2));
+}
+
+macro_rules! cpc_union_case {
+    ($name:ident, $lga:expr, $na:expr, $lgb:expr, $nb:expr, $lgu:expr) => {
+        #[kani::proof]
+        #[kani::unwind(20)]
+        fn $name() {
+            union_case($lga, $na, $lgb, $nb, $lgu);
+            kani::cover!(true);
+        }
+    };
+}
+
+//@ family: cpc_union_case
+//@ props: C06 C17
+//@ tier: thorough
+//@ timeout: 3600
+//@ functions: cpc::union::CpcUnion::update
+//@ functions: cpc::union::CpcUnion::to_sketch
+//@ functions: cpc::union::CpcUnion::reduce_k
+//@ functions: cpc::union::CpcUnion::num_coupons
+//@ functions: cpc::union::walk_table_updating_sketch
+//@ functions: cpc::union::or_table_into_matrix
+//@ functions: cpc::union::or_window_into_matrix
+//@ unwind: 20
+//@ bounds: two input sketches built from symbolic distinct (row, col) coupons: (lg_k, count) per instance - Sparse (1 coupon) and Hybrid (2 coupons at lg_k 4) inputs, equal lg_k and lg_k 5 folded into 4, union created at lg_k 4 or 5 (reduce_k path); both input orders, one input repeated
+//@ desc: after every update the union's result sketch represents exactly the OR of the inputs' matrices folded to the smallest lg_k: coupon count = popcount, validate() holds, marked as merged, window offset matches; independent of input order and repetition
+cpc_union_case!(c06_union_sparse_sparse, 4, 1, 4, 1, 4); //@ tier: quick
+cpc_union_case!(c06_union_sparse_fold, 4, 1, 5, 1, 4);
+cpc_union_case!(c06_union_reduce_k, 5, 1, 4, 1, 5);
+cpc_union_case!(c06_union_hybrid_sparse, 4, 2, 4, 1, 4);
+//@ endfamily: x
